@@ -178,6 +178,29 @@ func seqScenario(rt ring.Type, logN int, ch rk.Chain, np, bound int) engine.Scen
 				c.Fail("C03/seq/decrypt/plaintext-views-diverge", "%s: after Decrypt into a reused plaintext, pt.Value and pt.El().Value[0] hold different polynomials", what)
 				return
 			}
+			// the same decryptor and receiver on a degree-2 and a degree-3 ciphertext (the Horner loop with
+			// its scratch buffer): decryption is a pure function of the ciphertext, so uniform components do
+			for deg := 2; deg <= 3; deg++ {
+				ctd := rlwe.NewCiphertext(p, deg, wantLevel)
+				smp := ring.NewUniformSampler(uni.KeyedPRNG("c03-seq", name, cfg, i, deg), rQ).AtLevel(wantLevel)
+				for d := range ctd.Value {
+					smp.Read(ctd.Value[d])
+				}
+				ctd.IsNTT = isNTT
+				if i == 0 {
+					out.Resize(0, L)
+				}
+				dl := wantLevel
+				if out.Level() < dl {
+					dl = out.Level()
+				}
+				dec.Decrypt(ctd, out)
+				gotd := rk.CoeffsQ(rQ, out.Value, dl, out.IsNTT, out.IsMontgomery)
+				if out.Level() != dl || !rk.Equal(gotd, rk.CenterAll(rk.Phase(rt, rQ, &ctd.Element, s), q(p, dl))) {
+					c.Fail("C03/seq/decrypt/value-degree>1", "%s: Decrypt of a degree-%d ciphertext (IsNTT=%v, decryptor variant %d, reused receiver) disagrees with the independent phase (level %d, want %d)", what, deg, isNTT, decVar, out.Level(), dl)
+					return
+				}
+			}
 			c.Outcome("seq", keyName, wantLevel, decLevel, ref.InfNorm(e).BitLen())
 		}
 		c.Count(seqLen)
